@@ -82,8 +82,26 @@ def r1(ctx):
         yield PASS("C16-R1", "iso8601/field-range/offset", "%d strings: Z or [-+]hh[:]mm, mm 00-59, hh %s-%s" % (len(ol), hh[0], hh[-1]), [])
         if hh[-1] < "23":
             ctx.note("O2: the pattern admits offset hours only up to %s (ISO-8601 allows up to 23); completeness over all ISO-8601 strings is not decided" % hh[-1])
+    # the reviewed zone language exactly: Z, or sign hh[:]mm with hh 00-19 (a wider hh up to 23 would repair observation O2
+    # and is accepted; anything else - a narrower hour / minute range, another sign or designator character - is not)
+    if off["finite"] and not bad:
+        need_ = {"Z"} | {"%s%02d%s%02d" % (sg, h_, c_, m_) for sg in "+-" for h_ in range(20) for c_ in ("", ":") for m_ in range(60)}
+        allow_ = {"Z"} | {"%s%02d%s%02d" % (sg, h_, c_, m_) for sg in "+-" for h_ in range(24) for c_ in ("", ":") for m_ in range(60)}
+        lacks, beyond = sorted(need_ - set(ol)), sorted(set(ol) - allow_)
+        if lacks or beyond:
+            yield VIOL("C16-R1", "iso8601/offset-language", "the zone designator language lacks %d well-formed zones (e.g. %s) / admits %d others (e.g. %s)" % (len(lacks), lacks[:3], len(beyond), beyond[:3]), where=b.span_of_block(bi))
+        else:
+            yield PASS("C16-R1", "iso8601/offset-language", "exactly Z | [-+]hh[:]mm, hh 00-%s, mm 00-59 (%d strings)" % (max(s_[1:3] for s_ in ol if s_ != "Z"), len(ol)), [])
+    # the skeleton between the fields: optional '-' twice, literal 'T', optional ':' twice, optional [.,]<frac>, then the zone
+    sk = f.get("skeleton")
+    want_sk = {"<year>%s<month>%s<day>T<hour>%s<minute>%s<second>%s<offset>" % (d1, d2, c1, c2, fr_) for d1 in ("", "-") for d2 in ("", "-") for c1 in ("", ":") for c2 in ("", ":") for fr_ in ("", ".<frac>", ",<frac>")}
+    if sk is None or set(sk) != want_sk:
+        diff = sorted(set(sk or []) ^ want_sk)[:3]
+        yield VIOL("C16-R1", "iso8601/skeleton", "the separators between the fields are not exactly [-]? [-]? 'T' [:]? [:]? ([.,]frac)? zone (differs e.g. in %s)" % diff, where=b.span_of_block(bi))
+    else:
+        yield PASS("C16-R1", "iso8601/skeleton", "%d separator combinations, exactly the reviewed ones" % len(sk), [])
     y = gs["year"]
-    if (y["min_len"], y["max_len"] if y["ascii_only"] else 4) != (4, 4) and not (y["min_len"] == 4):
+    if not (y.get("rep_min") == 4 and y.get("rep_max") == 4 and y["min_len"] == 4):
         yield VIOL("C16-R1", "iso8601/field-range/year", "year is not exactly four digits", where=b.span_of_block(bi))
     else:
         yield PASS("C16-R1", "iso8601/field-range/year", "four digits%s" % ("" if y["ascii_only"] else " (Unicode \\d: non-ASCII digits are discharged by the caller-domain argument of C08)"), [])
